@@ -6,19 +6,21 @@ import NutsModel.C02.Token
 
 namespace Nuts.C02
 
-/-- the operations of the authorization server that touch the stores of this property. `seed` stands for the
-    authorization-request leg (`handleAuthorizeRequestFromHolder`): the server itself creates a client-state
-    session and maps a nonce to it. -/
+/-- the operations of the authorization server that touch the stores of this property. `authreq` is the authorization
+    request (`handleAuthorizeRequestFromHolder`), where the server creates the session; `seed` puts an arbitrary
+    session and nonce mapping into the stores (any state the server could be in, also ones no request produces). -/
 inductive Op where
   | s2s (r : S2SReq)
   | auth (r : AuthResp)
   | code (r : CodeReq)
   | seed (state nonce : String) (session : Session)
+  | authreq (r : AuthReq)
 
 inductive Out where
   | token (r : Res TokenResponse)
   | auth (r : Res AuthOut)
   | seeded
+  | authreq (r : Res AuthReqOut)
   deriving DecidableEq, Repr
 
 def step (cfg : Cfg) (sha : String → String) (w : World) (t : Nat) : Op → World × Out
@@ -28,6 +30,7 @@ def step (cfg : Cfg) (sha : String → String) (w : World) (t : Nat) : Op → Wo
   | .seed state nonce session =>
     ({ w with states := w.states.put t cfg.stateTtl state session,
               oauthNonces := w.oauthNonces.put t cfg.oauthNonceTtl nonce state }, .seeded)
+  | .authreq r => let (w', res) := authorizeRequest cfg w t r; (w', .authreq res)
 
 /-- run a history (oldest operation first); the outputs are collected in the same order -/
 def run (cfg : Cfg) (sha : String → String) : List (Nat × Op) → World → World × List Out
